@@ -25,6 +25,11 @@ import Mathlib.Analysis.SpecialFunctions.Pow.Real
 import Mathlib.Analysis.SpecialFunctions.Trigonometric.Inverse
 import Mathlib.Analysis.SpecialFunctions.Trigonometric.Arctan
 import Mathlib.Analysis.Real.Pi.Bounds
+import Mathlib.Analysis.SpecialFunctions.Trigonometric.InverseDeriv
+import Mathlib.Analysis.Calculus.Deriv.Slope
+import Mathlib.Analysis.SpecialFunctions.Log.Deriv
+import Mathlib.Analysis.SpecialFunctions.Pow.Continuity
+import Mathlib.Topology.Algebra.Order.Field
 
 set_option linter.unusedSectionVars false
 set_option linter.unusedVariables false
@@ -756,7 +761,7 @@ noncomputable instance instTransReal : Trans ℝ where
   pow := fun x y => x ^ y
   abs := fun x => |x|
 
-theorem rpow_third_cube {x : ℝ} (hx : 0 ≤ x) : (x ^ ((1:ℝ)/3)) ^ 3 = x := by
+private theorem rpow_third_cube {x : ℝ} (hx : 0 ≤ x) : (x ^ ((1:ℝ)/3)) ^ 3 = x := by
   rw [← Real.rpow_natCast, ← Real.rpow_mul hx]; norm_num
 
 /-- law of the cube-root atom over ℝ -/
@@ -768,11 +773,11 @@ theorem real_cbrt_cube (x : ℝ) : (Trans.cbrt x : ℝ) ^ 3 = x := by
     have : 0 ≤ -x := by linarith
     rw [neg_pow, rpow_third_cube this]; norm_num
 
-theorem real_cbrt_pos {x : ℝ} (hx : 0 < x) : 0 < (Trans.cbrt x : ℝ) := by
+private theorem real_cbrt_pos {x : ℝ} (hx : 0 < x) : 0 < (Trans.cbrt x : ℝ) := by
   show 0 < (if 0 ≤ x then x ^ ((1:ℝ)/3) else -((-x) ^ ((1:ℝ)/3)))
   rw [if_pos hx.le]; exact Real.rpow_pos_of_pos hx _
 
-theorem real_pow_pos {x : ℝ} (hx : 0 < x) (y : ℝ) : 0 < (Trans.pow x y : ℝ) :=
+private theorem real_pow_pos {x : ℝ} (hx : 0 < x) (y : ℝ) : 0 < (Trans.pow x y : ℝ) :=
   Real.rpow_pos_of_pos hx y
 
 /-- law of `x^(2/3)` over ℝ -/
@@ -790,12 +795,12 @@ theorem real_arccos (e : ℝ) : (Trans.arccos e : ℝ) = Trans.pi / 2 - Trans.ar
 theorem real_arctanh (e : ℝ) :
     (Trans.arctanh e : ℝ) = (Trans.log (1 + e) - Trans.log (1 - e)) / 2 := rfl
 
-theorem real_pi_pos : (0:ℝ) < Trans.pi := Real.pi_pos
+private theorem real_pi_pos : (0:ℝ) < Trans.pi := Real.pi_pos
 
 /-- radius of the sphere with the volume of the spheroid with semi-axes (x, y, z) -/
 noncomputable def eqVolRadius (x y z : ℝ) : ℝ := (x * y * z) ^ ((1:ℝ)/3)
 
-theorem eqVolRadius_cube {x y z : ℝ} (h : 0 ≤ x * y * z) : eqVolRadius x y z ^ 3 = x * y * z :=
+private theorem eqVolRadius_cube {x y z : ℝ} (h : 0 ≤ x * y * z) : eqVolRadius x y z ^ 3 = x * y * z :=
   rpow_third_cube h
 
 /-- **semi-axes over ℝ**, no hypotheses on atoms: for every aspect ratio `ar > 0` the needle,
@@ -872,6 +877,382 @@ theorem real_eqRadius_mins :
   ⟨needle_eqRadiusFactorMin_eq real_cbrt_cube, plate_eqRadiusFactorMin_eq real_cbrt_cube⟩
 
 end real
+
+/-! ## continuity at aspect ratio 1 over ℝ (topological) -/
+section realcont
+open Filter Topology
+
+/-- topological form over ℝ -/
+theorem real_wrapper_continuousAt_iff (fmin : ℝ) (f : ℝ → ℝ) (hf : ContinuousAt f 1) :
+    ContinuousAt (wrapScalar fmin f) 1 ↔ fmin = f 1 := by
+  constructor
+  · intro hc
+    have h1 : Tendsto (wrapScalar fmin f) (𝓝[>] 1) (𝓝 (wrapScalar fmin f 1)) :=
+      hc.tendsto.mono_left nhdsWithin_le_nhds
+    rw [wrapScalar_le_one fmin f le_rfl] at h1
+    have h2 : Tendsto f (𝓝[>] 1) (𝓝 (f 1)) := hf.tendsto.mono_left nhdsWithin_le_nhds
+    have h3 : Tendsto (wrapScalar fmin f) (𝓝[>] 1) (𝓝 (f 1)) := by
+      refine h2.congr' ?_
+      filter_upwards [self_mem_nhdsWithin] with x hx
+      exact (wrapScalar_gt_one fmin f hx).symm
+    exact tendsto_nhds_unique h1 h3
+  · intro h
+    have hw : wrapScalar fmin f = fun x => f (max x 1) := by
+      funext x
+      rw [(wrapScalar_eq_comp_clamp_iff fmin f).mpr h x, clamp_eq_max]
+    rw [hw]
+    have hm : ContinuousAt (fun x : ℝ => max x 1) 1 := by fun_prop
+    have : ContinuousAt f (max (1:ℝ) 1) := by simpa using hf
+    exact ContinuousAt.comp (g := f) this hm
+
+noncomputable def eccR (ar : ℝ) : ℝ := Real.sqrt (1 - 1 / (ar * ar))
+
+private theorem eccR_pos {ar : ℝ} (h : 1 < ar) : 0 < eccR ar := by
+  unfold eccR
+  apply Real.sqrt_pos.mpr
+  have : 1 < ar * ar := by nlinarith
+  have : 1 / (ar * ar) < 1 := by rw [div_lt_one (by linarith)]; exact this
+  linarith
+
+private theorem eccR_lt_one {ar : ℝ} (h : 1 < ar) : eccR ar < 1 := by
+  unfold eccR
+  rw [Real.sqrt_lt' one_pos]
+  have : 0 < 1 / (ar * ar) := by positivity
+  linarith
+
+private theorem eccR_tendsto : Tendsto eccR (𝓝[>] 1) (𝓝[≠] 0) := by
+  rw [tendsto_nhdsWithin_iff]
+  constructor
+  · have hc : ContinuousAt eccR 1 := by
+      unfold eccR
+      fun_prop (disch := norm_num)
+    have h0 : eccR 1 = 0 := by simp [eccR]
+    have := hc.tendsto
+    rw [h0] at this
+    exact this.mono_left nhdsWithin_le_nhds
+  · filter_upwards [self_mem_nhdsWithin] with x hx
+    exact (eccR_pos hx).ne'
+
+private theorem arcsin_div_tendsto : Tendsto (fun t => Real.arcsin t / t) (𝓝[≠] 0) (𝓝 1) := by
+  have h : HasDerivAt Real.arcsin (1 / Real.sqrt (1 - (0:ℝ) ^ 2)) 0 :=
+    (Real.hasStrictDerivAt_arcsin (by norm_num) (by norm_num)).hasDerivAt
+  have := hasDerivAt_iff_tendsto_slope_zero.mp h
+  simpa [div_eq_inv_mul] using this
+
+private theorem logdiff_div_tendsto :
+    Tendsto (fun t => (Real.log (1 + t) - Real.log (1 - t)) / t) (𝓝[≠] 0) (𝓝 2) := by
+  have h1 : HasDerivAt (fun t : ℝ => Real.log (1 + t)) (1 / (1 + 0)) 0 :=
+    ((hasDerivAt_id (0:ℝ)).const_add 1).log (by norm_num)
+  have h2 : HasDerivAt (fun t : ℝ => Real.log (1 - t)) (-1 / (1 - 0)) 0 :=
+    ((hasDerivAt_id (0:ℝ)).const_sub 1).log (by norm_num)
+  have h := h1.sub h2
+  have := hasDerivAt_iff_tendsto_slope_zero.mp h
+  have e : (1 / (1 + 0) - -1 / (1 - 0) : ℝ) = 2 := by norm_num
+  rw [e] at this
+  simpa [div_eq_inv_mul] using this
+
+/-- a wrapper whose inner formula tends to the constant from the right is continuous at 1 -/
+theorem wrapper_continuousAt_of_right_limit (fmin : ℝ) (f : ℝ → ℝ)
+    (h : Tendsto f (𝓝[>] 1) (𝓝 fmin)) : ContinuousAt (wrapScalar fmin f) 1 := by
+  rw [continuousAt_iff_continuous_left'_right']
+  have h1 : wrapScalar fmin f 1 = fmin := wrapScalar_le_one fmin f le_rfl
+  constructor
+  · unfold ContinuousWithinAt
+    rw [h1]
+    refine tendsto_const_nhds.congr' ?_
+    filter_upwards [self_mem_nhdsWithin] with x hx
+    exact (wrapScalar_le_one fmin f (le_of_lt hx)).symm
+  · unfold ContinuousWithinAt
+    rw [h1]
+    refine h.congr' ?_
+    filter_upwards [self_mem_nhdsWithin] with x hx
+    exact (wrapScalar_gt_one fmin f hx).symm
+
+private theorem rpow_const_tendsto_one (y : ℝ) : Tendsto (fun ar : ℝ => ar ^ y) (𝓝[>] 1) (𝓝 1) := by
+  have := (Real.continuousAt_rpow_const 1 y (Or.inl one_ne_zero)).tendsto
+  rw [Real.one_rpow] at this
+  exact this.mono_left nhdsWithin_le_nhds
+
+private theorem id_tendsto_one : Tendsto (fun ar : ℝ => ar) (𝓝[>] 1) (𝓝 1) :=
+  tendsto_id.mono_left nhdsWithin_le_nhds
+
+private theorem needle_thermo_form (ar : ℝ) :
+    needle_thermoFactor ar
+      = 1 / (2 * ar ^ ((2:ℝ)/3)) * (1 + ar * (Real.arcsin (eccR ar) / eccR ar)) := by
+  show 1 / (2 * ar ^ ((2:ℝ)/3)) * (1 + ar / eccR ar * Real.arcsin (eccR ar)) = _
+  ring
+
+/-- **needle, thermodynamic factor → 1 as ar → 1⁺** -/
+theorem needle_thermo_tendsto : Tendsto (needle_thermoFactor : ℝ → ℝ) (𝓝[>] 1) (𝓝 1) := by
+  have hq := arcsin_div_tendsto.comp eccR_tendsto
+  have hp := rpow_const_tendsto_one ((2:ℝ)/3)
+  have h : Tendsto (fun ar : ℝ => 1 / (2 * ar ^ ((2:ℝ)/3)) * (1 + ar * (Real.arcsin (eccR ar) / eccR ar)))
+      (𝓝[>] 1) (𝓝 (1 / (2 * 1) * (1 + 1 * 1))) :=
+    ((tendsto_const_nhds.div (tendsto_const_nhds.mul hp) (by norm_num))).mul
+      (tendsto_const_nhds.add (id_tendsto_one.mul hq))
+  have e : (1 / (2 * 1) * (1 + 1 * 1) : ℝ) = 1 := by norm_num
+  rw [e] at h
+  exact h.congr (fun ar => (needle_thermo_form ar).symm)
+
+private theorem real_cbrt_of_nonneg {x : ℝ} (h : 0 ≤ x) : (Trans.cbrt x : ℝ) = x ^ ((1:ℝ)/3) := if_pos h
+
+private theorem cbrt_tendsto_one {g : ℝ → ℝ} (hg : Tendsto g (𝓝[>] 1) (𝓝 1)) :
+    Tendsto (fun ar => (Trans.cbrt (g ar) : ℝ)) (𝓝[>] 1) (𝓝 1) := by
+  have h := hg.rpow_const (p := (1:ℝ)/3) (Or.inl one_ne_zero)
+  rw [Real.one_rpow] at h
+  refine h.congr' ?_
+  have hpos : ∀ᶠ ar in 𝓝[>] (1:ℝ), 0 < g ar := hg.eventually (lt_mem_nhds one_pos)
+  filter_upwards [hpos] with ar har
+  exact (real_cbrt_of_nonneg har.le).symm
+
+/-- **needle, kinetic factor → 1 as ar → 1⁺** -/
+theorem needle_kinetic_tendsto : Tendsto (needle_kineticFactor : ℝ → ℝ) (𝓝[>] 1) (𝓝 1) := by
+  have hq := logdiff_div_tendsto.comp eccR_tendsto
+  have hc := cbrt_tendsto_one (g := fun ar => ar * ar) (by simpa using id_tendsto_one.mul id_tendsto_one)
+  have h : Tendsto (fun ar : ℝ => 2 * (Trans.cbrt (ar * ar) : ℝ)
+        / ((Real.log (1 + eccR ar) - Real.log (1 - eccR ar)) / eccR ar)) (𝓝[>] 1) (𝓝 (2 * 1 / 2)) :=
+    (tendsto_const_nhds.mul hc).div hq (by norm_num)
+  have e : (2 * 1 / 2 : ℝ) = 1 := by norm_num
+  rw [e] at h
+  refine h.congr' ?_
+  filter_upwards [self_mem_nhdsWithin] with ar har
+  have he := (eccR_pos har).ne'
+  show _ = 2 * (Trans.cbrt (ar * ar) : ℝ) * eccR ar / (Real.log (1 + eccR ar) - Real.log (1 - eccR ar))
+  rw [div_div_eq_mul_div]
+
+/-- **plate, kinetic factor → 1 as ar → 1⁺** -/
+theorem plate_kinetic_tendsto : Tendsto (plate_kineticFactor : ℝ → ℝ) (𝓝[>] 1) (𝓝 1) := by
+  have hq := arcsin_div_tendsto.comp eccR_tendsto
+  have hc := cbrt_tendsto_one id_tendsto_one
+  have h : Tendsto (fun ar : ℝ => (Trans.cbrt ar : ℝ) / (Real.arcsin (eccR ar) / eccR ar))
+      (𝓝[>] 1) (𝓝 (1 / 1)) := hc.div hq one_ne_zero
+  rw [div_one] at h
+  refine h.congr' ?_
+  filter_upwards [self_mem_nhdsWithin] with ar har
+  have he := (eccR_pos har).ne'
+  show _ = eccR ar * (Trans.cbrt ar : ℝ) / (Real.pi / 2 - Real.arccos (eccR ar))
+  rw [Real.arccos_eq_pi_div_two_sub_arcsin, sub_sub_cancel, div_div_eq_mul_div, mul_comm]
+
+/-- **plate, thermodynamic factor → 1 as ar → 1⁺** -/
+theorem plate_thermo_tendsto : Tendsto (plate_thermoFactor : ℝ → ℝ) (𝓝[>] 1) (𝓝 1) := by
+  have hq := logdiff_div_tendsto.comp eccR_tendsto
+  have hp := rpow_const_tendsto_one ((4:ℝ)/3)
+  have h : Tendsto (fun ar : ℝ => 1 / (2 * ar ^ ((4:ℝ)/3))
+        * (ar * ar + 1 / 2 * ((Real.log (1 + eccR ar) - Real.log (1 - eccR ar)) / eccR ar)))
+      (𝓝[>] 1) (𝓝 (1 / (2 * 1) * (1 * 1 + 1 / 2 * 2))) :=
+    (tendsto_const_nhds.div (tendsto_const_nhds.mul hp) (by norm_num)).mul
+      ((id_tendsto_one.mul id_tendsto_one).add (tendsto_const_nhds.mul hq))
+  have e : (1 / (2 * 1) * (1 * 1 + 1 / 2 * 2) : ℝ) = 1 := by norm_num
+  rw [e] at h
+  refine h.congr' ?_
+  filter_upwards [self_mem_nhdsWithin] with ar har
+  have he := (eccR_pos har).ne'
+  have h1 : (1 + eccR ar) ≠ 0 := by have := eccR_pos har; linarith
+  have h2 : (1 - eccR ar) ≠ 0 := by have := eccR_lt_one har; linarith
+  show _ = 1 / (2 * ar ^ ((4:ℝ)/3)) * (ar * ar + 1 / (2 * eccR ar)
+      * Real.log ((1 + eccR ar) / (1 - eccR ar)))
+  rw [Real.log_div h1 h2]
+  field_simp
+
+private theorem log1p_div_tendsto : Tendsto (fun v => Real.log (1 + v) / v) (𝓝[≠] 0) (𝓝 1) := by
+  have h1 : HasDerivAt (fun t : ℝ => Real.log (1 + t)) (1 / (1 + 0)) 0 :=
+    ((hasDerivAt_id (0:ℝ)).const_add 1).log (by norm_num)
+  have := hasDerivAt_iff_tendsto_slope_zero.mp h1
+  simpa [div_eq_inv_mul] using this
+
+/-- **cuboid, kinetic factor → 0.968 = `kineticFactorMin` as ar → 1⁺** -/
+theorem cuboid_kinetic_tendsto :
+    Tendsto (cuboid_kineticFactor : ℝ → ℝ) (𝓝[>] 1) (𝓝 cuboid_kineticFactorMin) := by
+  let s : ℝ → ℝ := fun ar => Real.sqrt (ar * ar - 1)
+  let u : ℝ → ℝ := fun ar => s ar * (2 * s ar + 2 * ar)
+  have hs0 : Tendsto s (𝓝[>] 1) (𝓝 0) := by
+    have hc : ContinuousAt s 1 := by
+      show ContinuousAt (fun ar : ℝ => Real.sqrt (ar * ar - 1)) 1
+      fun_prop
+    have := hc.tendsto
+    have h0 : s 1 = 0 := by simp [s]
+    rw [h0] at this
+    exact this.mono_left nhdsWithin_le_nhds
+  have hspos : ∀ ar : ℝ, 1 < ar → 0 < s ar := by
+    intro ar har
+    apply Real.sqrt_pos.mpr; nlinarith
+  have hw : Tendsto (fun ar => 2 * s ar + 2 * ar) (𝓝[>] 1) (𝓝 (2 * 0 + 2 * 1)) :=
+    (tendsto_const_nhds.mul hs0).add (tendsto_const_nhds.mul id_tendsto_one)
+  have hu : Tendsto u (𝓝[>] 1) (𝓝[≠] 0) := by
+    rw [tendsto_nhdsWithin_iff]
+    constructor
+    · have := hs0.mul hw
+      simpa using this
+    · filter_upwards [self_mem_nhdsWithin] with ar har
+      have := hspos ar har
+      have h1 : (0:ℝ) < ar := lt_trans one_pos har
+      exact (mul_pos this (by linarith)).ne'
+  have hl := log1p_div_tendsto.comp hu
+  have hc := cbrt_tendsto_one id_tendsto_one
+  have hexp : Tendsto (fun ar : ℝ => Real.exp (-(91 / 1000) * (ar - 1))) (𝓝[>] 1) (𝓝 1) := by
+    have hc : ContinuousAt (fun ar : ℝ => Real.exp (-(91 / 1000) * (ar - 1))) 1 := by fun_prop
+    have := hc.tendsto
+    simp only [sub_self, mul_zero, Real.exp_zero] at this
+    exact this.mono_left nhdsWithin_le_nhds
+  have h : Tendsto (fun ar : ℝ => 1 / 10 * Real.exp (-(91 / 1000) * (ar - 1))
+        + 217 / 125 * (1 / (2 * s ar + 2 * ar)) / ((Trans.cbrt ar : ℝ) * (Real.log (1 + u ar) / u ar)))
+      (𝓝[>] 1) (𝓝 (1 / 10 * 1 + 217 / 125 * (1 / (2 * 0 + 2 * 1)) / (1 * 1))) :=
+    (tendsto_const_nhds.mul hexp).add
+      ((tendsto_const_nhds.mul (tendsto_const_nhds.div hw (by norm_num))).div (hc.mul hl) (by norm_num))
+  have e : (1 / 10 * 1 + 217 / 125 * (1 / (2 * 0 + 2 * 1)) / (1 * 1) : ℝ) = cuboid_kineticFactorMin := by
+    show _ = (121 : ℝ) / 125
+    norm_num
+  rw [e] at h
+  refine h.congr' ?_
+  filter_upwards [self_mem_nhdsWithin] with ar har'
+  have har : 1 < ar := har'
+  have hs := hspos ar har
+  have h1 : (0:ℝ) < ar := lt_trans one_pos har
+  have hsq : s ar * s ar = ar * ar - 1 := Real.mul_self_sqrt (by nlinarith)
+  have hu1 : 2 * (ar * ar) + 2 * ar * s ar - 1 = 1 + u ar := by
+    show _ = 1 + s ar * (2 * s ar + 2 * ar)
+    nlinarith
+  have hune : u ar ≠ 0 := (mul_pos hs (by linarith)).ne'
+  have hw0 : 2 * s ar + 2 * ar ≠ 0 := by linarith
+  show _ = 1 / 10 * Real.exp (-(91 / 1000) * (ar - 1))
+      + 217 / 125 * s ar / ((Trans.cbrt ar : ℝ) * Real.log (2 * (ar * ar) + 2 * ar * s ar - 1))
+  rw [hu1]
+  congr 1
+  have : u ar = s ar * (2 * s ar + 2 * ar) := rfl
+  rw [this]
+  have hs' := hs.ne'
+  by_cases hL : Real.log (1 + s ar * (2 * s ar + 2 * ar)) = 0
+  · simp [hL]
+  by_cases hC : (Trans.cbrt ar : ℝ) = 0
+  · simp [hC]
+  field_simp
+
+private theorem real_cbrt_continuousAt {x : ℝ} (hx : 0 < x) : ContinuousAt (Trans.cbrt : ℝ → ℝ) x := by
+  have h := Real.continuousAt_rpow_const x ((1:ℝ)/3) (Or.inl hx.ne')
+  refine h.congr ?_
+  filter_upwards [Ioi_mem_nhds hx] with y hy
+  exact (real_cbrt_of_nonneg (le_of_lt hy)).symm
+
+private theorem cbrt_comp_continuousAt {g : ℝ → ℝ} {a : ℝ} (hg : ContinuousAt g a) (hpos : 0 < g a) :
+    ContinuousAt (fun ar => (Trans.cbrt (g ar) : ℝ)) a :=
+  ContinuousAt.comp (g := (Trans.cbrt : ℝ → ℝ)) (real_cbrt_continuousAt hpos) hg
+
+private theorem clamp_continuousAt : ContinuousAt (clamp : ℝ → ℝ) 1 := by
+  have : (clamp : ℝ → ℝ) = fun x => max x 1 := funext clamp_eq_max
+  rw [this]; fun_prop
+
+/-- the inner formulas that have a value at 1 are continuous there -/
+theorem real_formulas_continuousAt_one :
+    ContinuousAt (needle_eqRadius : ℝ → ℝ) 1 ∧ ContinuousAt (plate_eqRadius : ℝ → ℝ) 1
+    ∧ ContinuousAt (cuboid_eqRadius : ℝ → ℝ) 1 ∧ ContinuousAt (cuboid_thermoFactor : ℝ → ℝ) 1 := by
+  have hpi := Real.pi_pos
+  refine ⟨?_, ?_, ?_, ?_⟩
+  · exact real_cbrt_continuousAt one_pos
+  · show ContinuousAt (fun ar : ℝ => (Trans.cbrt (ar * ar) : ℝ)) 1
+    exact cbrt_comp_continuousAt (by fun_prop) (by norm_num)
+  · show ContinuousAt (fun ar : ℝ => (Trans.cbrt (3 * ar / (4 * Real.pi)) : ℝ)) 1
+    exact cbrt_comp_continuousAt (by fun_prop) (by positivity)
+  · show ContinuousAt (fun ar : ℝ => (2 * ar + 1) / (2 * Real.pi) * (4 * Real.pi / (3 * ar)) ^ ((2:ℝ)/3)) 1
+    apply ContinuousAt.mul (by fun_prop)
+    apply ContinuousAt.rpow_const
+    · exact ContinuousAt.div (by fun_prop) (by fun_prop) (by norm_num)
+    · right; norm_num
+
+/-- **continuity at aspect ratio 1 of every factor of every shape** (ℝ, topological): the twelve
+public factor functions (wrapper model over the generated formulas and constants) are continuous
+at 1.  Needle/plate thermodynamic and kinetic factor: the formulas tend to 1 (`asin e / e → 1`,
+`(log(1+e) − log(1−e))/e → 2`); cuboid kinetic factor: the formula tends to 0.968; the others:
+constant = formula(1) and the formula is continuous at 1. -/
+theorem real_factors_continuous_at_one :
+    ContinuousAt (wrapScalar (needle_eqRadiusFactorMin : ℝ) needle_eqRadius) 1
+    ∧ ContinuousAt (wrapScalar (needle_thermoFactorMin : ℝ) needle_thermoFactor) 1
+    ∧ ContinuousAt (wrapScalar (needle_kineticFactorMin : ℝ) needle_kineticFactor) 1
+    ∧ ContinuousAt (wrapScalar (plate_eqRadiusFactorMin : ℝ) plate_eqRadius) 1
+    ∧ ContinuousAt (wrapScalar (plate_thermoFactorMin : ℝ) plate_thermoFactor) 1
+    ∧ ContinuousAt (wrapScalar (plate_kineticFactorMin : ℝ) plate_kineticFactor) 1
+    ∧ ContinuousAt (wrapScalar (cuboid_eqRadiusFactorMin : ℝ) cuboid_eqRadius) 1
+    ∧ ContinuousAt (wrapScalar (cuboid_thermoFactorMin : ℝ) cuboid_thermoFactor) 1
+    ∧ ContinuousAt (wrapScalar (cuboid_kineticFactorMin : ℝ) cuboid_kineticFactor) 1
+    ∧ ContinuousAt (wrapScalar (sphere_eqRadiusFactorMin : ℝ) sphere_eqRadius) 1
+    ∧ ContinuousAt (wrapScalar (sphere_thermoFactorMin : ℝ) sphere_thermoFactor) 1
+    ∧ ContinuousAt (wrapScalar (sphere_kineticFactorMin : ℝ) sphere_kineticFactor) 1 := by
+  obtain ⟨c1, c2, c3, c4⟩ := real_formulas_continuousAt_one
+  have sph : ContinuousAt (wrapScalar (1:ℝ) (fun _ => 1)) 1 :=
+    wrapper_continuousAt_of_right_limit 1 _ tendsto_const_nhds
+  exact ⟨(real_wrapper_continuousAt_iff _ _ c1).mpr (needle_eqRadiusFactorMin_eq real_cbrt_cube),
+    wrapper_continuousAt_of_right_limit _ _ needle_thermo_tendsto,
+    wrapper_continuousAt_of_right_limit _ _ needle_kinetic_tendsto,
+    (real_wrapper_continuousAt_iff _ _ c2).mpr (plate_eqRadiusFactorMin_eq real_cbrt_cube),
+    wrapper_continuousAt_of_right_limit _ _ plate_thermo_tendsto,
+    wrapper_continuousAt_of_right_limit _ _ plate_kinetic_tendsto,
+    (real_wrapper_continuousAt_iff _ _ c3).mpr cuboid_eqRadiusFactorMin_eq,
+    (real_wrapper_continuousAt_iff _ _ c4).mpr cuboid_thermoFactorMin_eq,
+    wrapper_continuousAt_of_right_limit _ _ cuboid_kinetic_tendsto,
+    sph, sph, sph⟩
+
+/-- with the constants of the code before the repair (1 and 1) the cuboid eq.-radius and
+thermodynamic factor were NOT continuous at 1. -/
+theorem real_cuboid_old_constants_discontinuous :
+    ¬ ContinuousAt (wrapScalar (1:ℝ) cuboid_eqRadius) 1
+    ∧ ¬ ContinuousAt (wrapScalar (1:ℝ) cuboid_thermoFactor) 1 := by
+  obtain ⟨_, _, c3, c4⟩ := real_formulas_continuousAt_one
+  exact ⟨fun h => real_cuboid_at_one_ne_one.1 ((real_wrapper_continuousAt_iff _ _ c3).mp h).symm,
+    fun h => real_cuboid_at_one_ne_one.2 ((real_wrapper_continuousAt_iff _ _ c4).mp h).symm⟩
+
+/-- the semi-axes returned by the public `normalRadii` (formula ∘ clamp) are continuous at 1 -/
+theorem real_normalRadii_continuous_at_one :
+    ContinuousAt (fun ar : ℝ => needle_normalRadii_r0 (clamp ar)) 1
+    ∧ ContinuousAt (fun ar : ℝ => needle_normalRadii_r2 (clamp ar)) 1
+    ∧ ContinuousAt (fun ar : ℝ => plate_normalRadii_r0 (clamp ar)) 1
+    ∧ ContinuousAt (fun ar : ℝ => plate_normalRadii_r2 (clamp ar)) 1
+    ∧ ContinuousAt (fun ar : ℝ => cuboid_normalRadii_r0 (clamp ar)) 1
+    ∧ ContinuousAt (fun ar : ℝ => cuboid_normalRadii_r2 (clamp ar)) 1
+    ∧ ContinuousAt (fun ar : ℝ => sphere_normalRadii_r0 (clamp ar)) 1 := by
+  have hcl : clamp (1:ℝ) = 1 := clamp_of_ge le_rfl
+  have comp : ∀ g : ℝ → ℝ, ContinuousAt g 1 → ContinuousAt (fun ar : ℝ => g (clamp ar)) 1 := by
+    intro g hg
+    have : ContinuousAt g (clamp (1:ℝ)) := by rw [hcl]; exact hg
+    exact ContinuousAt.comp (g := g) this clamp_continuousAt
+  have hinv : ContinuousAt (fun ar : ℝ => (Trans.cbrt (1 / ar) : ℝ)) 1 :=
+    cbrt_comp_continuousAt (ContinuousAt.div (by fun_prop) (by fun_prop) (by norm_num)) (by norm_num)
+  have hinv2 : ContinuousAt (fun ar : ℝ => (Trans.cbrt (1 / (ar * ar)) : ℝ)) 1 :=
+    cbrt_comp_continuousAt (ContinuousAt.div (by fun_prop) (by fun_prop) (by norm_num)) (by norm_num)
+  have hid : ContinuousAt (fun ar : ℝ => ar) 1 := continuousAt_id
+  refine ⟨comp _ ?_, comp _ ?_, comp _ ?_, comp _ ?_, comp _ ?_, comp _ ?_, comp _ ?_⟩
+  · exact continuousAt_const.mul hinv
+  · exact continuousAt_const.mul (hinv.mul hid)
+  · exact continuousAt_const.mul (hinv2.mul hid)
+  · exact continuousAt_const.mul hinv2
+  · exact hinv
+  · exact hinv.mul hid
+  · exact continuousAt_const
+
+/-- **eq.-radius factor increases with the aspect ratio** (ℝ; needle, plate, cuboid) -/
+theorem real_eqRadius_strictMono :
+    StrictMonoOn (needle_eqRadius : ℝ → ℝ) (Set.Ici 1)
+    ∧ StrictMonoOn (plate_eqRadius : ℝ → ℝ) (Set.Ici 1)
+    ∧ StrictMonoOn (cuboid_eqRadius : ℝ → ℝ) (Set.Ici 1) := by
+  have key : ∀ {x y : ℝ}, 0 ≤ x → x < y → (Trans.cbrt x : ℝ) < Trans.cbrt y := by
+    intro x y hx hxy
+    rw [real_cbrt_of_nonneg hx, real_cbrt_of_nonneg (hx.trans hxy.le)]
+    exact Real.rpow_lt_rpow hx hxy (by norm_num)
+  have hpi := Real.pi_pos
+  refine ⟨?_, ?_, ?_⟩
+  · intro x hx y hy hxy
+    have hx : (1:ℝ) ≤ x := hx
+    exact key (by linarith) hxy
+  · intro x hx y hy hxy
+    have hx : (1:ℝ) ≤ x := hx
+    show (Trans.cbrt (x * x) : ℝ) < Trans.cbrt (y * y)
+    exact key (by nlinarith) (by nlinarith)
+  · intro x hx y hy hxy
+    have hx : (1:ℝ) ≤ x := hx
+    show (Trans.cbrt (3 * x / (4 * Real.pi)) : ℝ) < Trans.cbrt (3 * y / (4 * Real.pi))
+    apply key (by positivity)
+    apply div_lt_div_of_pos_right _ (by positivity)
+    linarith
+
+end realcont
 
 /-! ## non-vacuity: the hypothesis sets are satisfiable -/
 
